@@ -15,6 +15,7 @@ import KVerif.Drv.C16
 import KVerif.Drv.C20 -- C20
 import KVerif.Drv.C15
 import KVerif.Drv.C11 -- C11
+import KVerif.Drv.C06
 open KVerif.Drv
 
 /-- kvdrv <prop>: one case line in, one `M <model> ## S <spec>` line out. -/
@@ -42,6 +43,8 @@ def dispatch (prop : String) : Option (String → String × String) :=
   | "C20" => some C20.run -- C20
   | "C15" => some C15.run
   | "C11" => some C11.run -- C11
+  | "C06" => some C06.run
+  | "C06o" => some C06.runOracle
   | _ => none
 
 partial def loop (h : IO.FS.Stream) (out : IO.FS.Stream) (f : String → String × String) : IO Unit := do
